@@ -66,6 +66,22 @@ Definition reachable (st : state) : Prop := exists h, st = state_after h.
 
 Definition ordinary (st : state) (c : cid) : Prop := connected st c = true /\ is_monitor st c = false.
 
+(* Histories in which no connection calls BecomeMonitor while a message of its own is still held for service
+   activation ("calm").  Outside them the faithful model breaks the property (finding F18e): the held message is
+   routed after its sender has become a monitor. *)
+Definition has_held (st : state) (c : cid) : bool := existsb (fun h => snd (fst h) =? c) (st_held st).
+Definition calm_event (st : state) (e : event) : bool :=
+  match e with
+  | EBecomeMonitor c _ _ _ _ => negb (has_held st c)
+  | _ => true
+  end.
+Fixpoint calm (st : state) (h : list event) : bool :=
+  match h with
+  | [] => true
+  | e :: h' => calm_event st e && calm (fst (step st e)) h'
+  end.
+Definition creachable (st : state) : Prop := exists h, calm init h = true /\ st = state_after h.
+
 (* ---------------------------------------------------------------- the property, clause by clause *)
 (* "receives exactly one copy of every message the bus subsequently processes that matches its filter ...
    each bearing the true sender": for every item the bus produces in a state where x is a monitor *)
@@ -99,19 +115,41 @@ Definition C18_send_closes_full_statement : Prop :=
 (* "what every other client observes is the same as if the monitor were absent": the history in which x
    becomes a monitor against the history in which x simply disconnects at that point.  The switch releases
    x's names first-to-last, a disconnect last-to-first, so within that one step the comparison is up to order. *)
-Definition C18_transparent_statement : Prop :=
-  forall h1 x s fs,
+Definition transparent_for (good : list event -> Prop) : Prop :=
+  forall h1 x s so fl rs,
+    good h1 ->
     ordinary (state_after h1) x -> s <> 0 ->
+    let bm := EBecomeMonitor x s so fl rs in
+    is_monitor (fst (step (state_after h1) bm)) x = true ->       (* the switch is not refused *)
     (* the switch step itself, against x leaving *)
     (forall c, c <> x -> is_monitor (state_after h1) c = false ->
-       Permutation (view c (snd (step (state_after h1) (EBecomeMonitor x s fs))))
+       Permutation (view c (snd (step (state_after h1) bm)))
                    (view c (snd (step (state_after h1) (EDisconnect x))))) /\
     (* every later step: whatever happens next (h2) and then e, every ordinary client reads the same *)
     (forall h2 e c,
-       let sa := state_after (h1 ++ EBecomeMonitor x s fs :: h2) in
+       good (h1 ++ bm :: h2) ->
+       let sa := state_after (h1 ++ bm :: h2) in
        let sb := state_after (h1 ++ EDisconnect x :: h2) in
        ordinary sa c ->
        ordinary sb c /\ view c (snd (step sa e)) = view c (snd (step sb e))).
+
+Definition C18_transparent_full_statement : Prop := transparent_for (fun _ => True).
+Definition C18_transparent_statement : Prop := transparent_for (fun h => calm init h = true).
+
+(* the property read on routed traffic only (what libdbus consumes by itself set aside) *)
+Definition C18_never_addressee_routed_full_statement : Prop :=
+  forall st e x it, reachable st -> is_monitor st x = true -> In it (snd (step st e)) -> i_local it = false ->
+    i_direct it <> Some x /\ ~ In x (i_match it).
+
+(* "nothing is routed from it": no item a step produces has a monitor as its sender, other than what the monitor
+   itself sends to libdbus on the bus's side (F18a) *)
+Definition C18_nothing_routed_from_monitor_full_statement : Prop :=
+  forall st e x it, reachable st -> is_monitor st x = true -> In it (snd (step st e)) -> i_local it = false ->
+    i_from it <> Some x.
+
+(* BecomeMonitor is all or nothing: a refused call changes nothing at all *)
+Definition refused (st : state) (c : cid) (so : bool) (fl : N) (rs : list (option flt)) : Prop :=
+  memN c (st_unpriv st) = true \/ so = false \/ fl <> 0 \/ In None rs.
 
 (* every connection that is a monitor after a step got each item of that step at most once, whatever the way *)
 Definition C18_once_total_full_statement : Prop :=
